@@ -16,6 +16,9 @@ PROP = {
         "Sonic.Props.C04.C04_cancel_marks_running_repeat",
         "Sonic.Props.C04.C04_fire_keeps_cancel_count",
         "Sonic.Props.C04.C04_repeating_continues",
+        "Sonic.Props.C04.C04_cancel_clears_ledger",
+        "Sonic.Props.C04.C04_close_clears_ledger",
+        "Sonic.Props.C04.C04_ledger_accepts_model",
         "Sonic.Props.C04.C04_closed_inside_own_callback_stops",
         "Sonic.Model.Loop.step_timer",
     ],
